@@ -134,7 +134,7 @@ int main(int argc, char** argv)
 		for(int mi = 0; mi < 6; mi++)
 		{
 			std::string m = METHODS[mi];
-			int par		  = (i % 2) ? 0 : (m == "Gauss-Kronrod" ? 6 : (m == "Gauss-Legendre_2" ? 40 : 3));
+			int par		  = (i % 2) ? 0 : (m == "Gauss-Kronrod" ? 6 : (m == "Gauss-Legendre_2" ? ((i % 4) ? 40 : 31) : 3));
 			long nout = 0;
 			auto wf	  = [&](double x) { if(x < a || x > b) nout++; return f(x); };
 			intent(m + " 1D");
